@@ -42,6 +42,19 @@ func (f *trFunc) coerceT(e ast.Expr, wantOpt bool, want types.Type) string {
 	}
 	s := f.expr(e)
 	t := f.typeOf(e)
+	if t != nil && isUint256(t) {
+		isOpt := false
+		if sel, ok := ast.Unparen(e).(*ast.SelectorExpr); ok {
+			isOpt = f.isOptionalField(sel)
+		}
+		if wantOpt && !isOpt {
+			return "(some " + s + ")"
+		}
+		if !wantOpt && isOpt {
+			return "(← gderef " + s + ")"
+		}
+		return s
+	}
 	if t != nil && isStructPtr(t) {
 		isOpt := f.isOptExpr(e)
 		if wantOpt && !isOpt {
@@ -82,16 +95,37 @@ func (f *trFunc) constExpr(e ast.Expr, tv types.TypeAndValue) (string, bool) {
 
 func (f *trFunc) fieldName(sel *ast.SelectorExpr, at ast.Node) string {
 	if s := f.info.Selections[sel]; s != nil && len(s.Index()) > 1 {
-		f.problem(at, "promoted field `%s`", f.src(sel))
-		return "unsupported"
+		// promoted field of embedded structs: the path of mapped field names
+		n := structOf(f.typeOf(sel.X))
+		var path []string
+		for _, idx := range s.Index() {
+			if n == nil {
+				f.problem(at, "promoted field `%s`", f.src(sel))
+				return "unsupported"
+			}
+			k := f.tr.typeKey(n)
+			ts, ok := f.tr.exp.Types[k]
+			if !ok {
+				f.problem(at, "struct type %s has no entry in funcs.json/types", k)
+				return "unsupported"
+			}
+			f.tr.usedTy[k] = true
+			fld := n.Underlying().(*types.Struct).Field(idx)
+			fl, ok := ts.Fields[fld.Name()]
+			if !ok {
+				f.problem(at, "field %s.%s is not mapped in funcs.json/types", k, fld.Name())
+				return "unsupported"
+			}
+			path = append(path, fl)
+			n = structOf(fld.Type())
+		}
+		return strings.Join(path, ".")
 	}
-	n := structOf(f.typeOf(sel.X))
-	if n == nil {
+	if structOf(f.typeOf(sel.X)) == nil {
 		f.problem(at, "field `%s` of a non-struct", f.src(sel))
 		return "unsupported"
 	}
-	k := f.tr.typeKey(n)
-	ts, ok := f.tr.exp.Types[k]
+	k, ts, ok := f.specOfStruct(sel.X)
 	if !ok {
 		f.problem(at, "struct type %s has no entry in funcs.json/types", k)
 		return "unsupported"
@@ -102,6 +136,21 @@ func (f *trFunc) fieldName(sel *ast.SelectorExpr, at ast.Node) string {
 		return "unsupported"
 	}
 	return fl
+}
+
+// wrapOf: sel selects a pointer field held as one component of the pointed-to structure
+func (f *trFunc) wrapOf(sel *ast.SelectorExpr) *wrapSpec {
+	if s := f.info.Selections[sel]; s == nil || s.Kind() != types.FieldVal || len(s.Index()) != 1 {
+		return nil
+	}
+	_, ts, ok := f.specOfStruct(sel.X)
+	if !ok {
+		return nil
+	}
+	if w, ok := ts.Wrap[sel.Sel.Name]; ok {
+		return &w
+	}
+	return nil
 }
 
 func (f *trFunc) expr(e ast.Expr) string {
@@ -141,16 +190,22 @@ func (f *trFunc) expr(e ast.Expr) string {
 			f.problem(x, "`%s`", f.src(x))
 			return "unsupported"
 		}
-		if s := f.info.Selections[x]; s == nil || s.Kind() != types.FieldVal {
+		if s := f.info.Selections[x]; !f.synth[x] && (s == nil || s.Kind() != types.FieldVal) {
 			f.problem(x, "method value `%s`", f.src(x))
 			return "unsupported"
 		}
 		fl := f.fieldName(x, x)
 		base := f.coerce(x.X, false)
+		r := "(" + base + ")." + fl
 		if isSimple(base) {
-			return base + "." + fl
+			r = base + "." + fl
 		}
-		return "(" + base + ")." + fl
+		if !f.synth[x] {
+			if w := f.wrapOf(x); w != nil {
+				return "(" + w.Mk + " " + r + ")"
+			}
+		}
+		return r
 	case *ast.UnaryExpr:
 		switch x.Op {
 		case token.SUB:
@@ -182,6 +237,22 @@ func (f *trFunc) expr(e ast.Expr) string {
 		return f.composite(x)
 	case *ast.IndexExpr:
 		t := f.typeOf(x.X)
+		if m := mapOf(t); m != nil {
+			if !isStringType(m.Key()) {
+				f.problem(x, "index into %s", f.tr.pr.typeStr(t))
+				return "unsupported"
+			}
+			g := "(mapGet " + f.arg(x.X) + " " + f.arg(x.Index) + ")"
+			if isStructPtr(m.Elem()) {
+				return g // an Option: nil when the key is missing
+			}
+			z, err := f.tr.zeroValue(m.Elem())
+			if err != nil {
+				f.problem(x, "%v", err)
+				z = "default"
+			}
+			return "(" + g + ".getD " + z + ")"
+		}
 		if _, ok := t.Underlying().(*types.Slice); !ok || isByteSlice(t) {
 			f.problem(x, "index into %s", f.tr.pr.typeStr(t))
 			return "unsupported"
@@ -395,6 +466,12 @@ func (f *trFunc) nilTest(e ast.Expr, isNil bool, at ast.Node) string {
 	switch {
 	case t == nil:
 	case isUint256(t):
+		if sel, ok := ast.Unparen(e).(*ast.SelectorExpr); ok && f.isOptionalField(sel) {
+			if isNil {
+				return "(" + s + ".isNone = true)"
+			}
+			return "(" + s + ".isSome = true)"
+		}
 		f.problem(at, "nil test of a *uint256.Int")
 	case isErrorType(t), isStructPtr(t):
 		if isStructPtr(t) && !f.isOptExpr(e) {
@@ -470,16 +547,25 @@ func (f *trFunc) composite(cl *ast.CompositeLit) string {
 			continue
 		}
 		var val string
+		optF := ts.isOptional(fld.Name())
 		if has {
 			if isUint256(fld.Type()) {
-				if _, isCall := ast.Unparen(v).(*ast.CallExpr); !isCall {
+				if _, isCall := ast.Unparen(v).(*ast.CallExpr); !isCall && !f.freeU256 {
 					f.problem(cl, "*uint256.Int field %s bound without a copy (aliasing)", fld.Name())
 				}
 			}
-			val = f.coerceT(v, false, fld.Type())
+			val = f.coerceT(v, optF, fld.Type())
+			if w, ok := ts.Wrap[fld.Name()]; ok {
+				val = "(" + val + ")." + w.Proj
+			}
 		} else {
 			z, err := f.tr.zeroValue(fld.Type())
-			if err != nil || isStructPtr(fld.Type()) {
+			if optF {
+				z, err = "none", nil
+			} else if st := structOf(fld.Type()); st != nil && !isStructPtr(fld.Type()) {
+				err = fmt.Errorf("no zero value") // a nested struct value left out
+			}
+			if err != nil || (isStructPtr(fld.Type()) && !optF) {
 				f.problem(cl, "field %s: no zero value", fld.Name())
 				z = "default"
 			}
@@ -514,7 +600,7 @@ func (f *trFunc) uint256Call(c *ast.CallExpr, sel *ast.SelectorExpr, stmtLevel b
 	m := sel.Sel.Name
 	a := func(i int) string {
 		if i < len(c.Args) {
-			return f.arg(c.Args[i])
+			return paren(f.coerceT(c.Args[i], false, nil))
 		}
 		f.problem(c, "uint256 %s: argument count", m)
 		return "0"
@@ -543,7 +629,7 @@ func (f *trFunc) uint256Call(c *ast.CallExpr, sel *ast.SelectorExpr, stmtLevel b
 			return a(0)
 		}
 	}
-	r := f.arg(sel.X)
+	r := paren(f.coerceT(sel.X, false, nil))
 	switch m {
 	case "Cmp":
 		return "(cmp256 " + r + " " + a(0) + ")"
@@ -633,6 +719,9 @@ func (f *trFunc) call(c *ast.CallExpr) string {
 				if _, ok := t.Underlying().(*types.Slice); ok {
 					return "(" + f.arg(c.Args[0]) + ".length : Int)"
 				}
+				if mapOf(t) != nil {
+					return "(" + f.arg(c.Args[0]) + ".length : Int)"
+				}
 			case "append":
 				t := f.typeOf(c.Args[0])
 				sl, ok := t.Underlying().(*types.Slice)
@@ -652,6 +741,9 @@ func (f *trFunc) call(c *ast.CallExpr) string {
 				}
 			case "make":
 				t := f.typeOf(c)
+				if m := mapOf(t); m != nil && isStringType(m.Key()) {
+					return "[]"
+				}
 				if _, ok := t.Underlying().(*types.Slice); ok && !isByteSlice(t) && len(c.Args) >= 2 {
 					if tv, ok := f.info.Types[c.Args[1]]; ok && tv.Value != nil && tv.Value.ExactString() == "0" {
 						return "[]"
@@ -663,6 +755,10 @@ func (f *trFunc) call(c *ast.CallExpr) string {
 		}
 	}
 	sel, isSel := ast.Unparen(c.Fun).(*ast.SelectorExpr)
+	// a call replaced by an explicit parameter (funcs.json "oracles")
+	if name := f.oracleFor(c); name != "" {
+		return name
+	}
 	// uint256
 	if isSel && isUint256(f.typeOf(sel.X)) && (uint256Setter[sel.Sel.Name] || uint256Pure[sel.Sel.Name]) {
 		return f.uint256Call(c, sel, false)
@@ -716,17 +812,39 @@ func (f *trFunc) call(c *ast.CallExpr) string {
 		f.problem(c, "call of %s (updates slice elements in place) in a function that keeps copies of element pointers", g.spec.Lean)
 	}
 	args := f.callArgs(c)
-	if c.Ellipsis.IsValid() || g.node.Obj.Type().(*types.Signature).Variadic() {
-		f.problem(c, "call of a variadic function")
+	variadic := g.node.Obj.Type().(*types.Signature).Variadic()
+	if c.Ellipsis.IsValid() && !variadic {
+		f.problem(c, "call with ... of a non-variadic function")
 	}
+	f.checkAliasArgs(c, g, args)
 	var as []string
 	for i, a := range args {
+		if variadic && !c.Ellipsis.IsValid() && i >= len(g.params)-1 {
+			break
+		}
 		if i < len(g.params) {
 			if isSyncType(g.params[i].Type()) {
 				continue
 			}
 			as = append(as, paren(f.coerceT(a, g.opt[g.params[i]], g.params[i].Type())))
 		}
+	}
+	if variadic && !c.Ellipsis.IsValid() {
+		// the trailing arguments form the slice
+		var es []string
+		last := g.params[len(g.params)-1]
+		var et types.Type
+		if sl, ok := last.Type().Underlying().(*types.Slice); ok {
+			et = sl.Elem()
+		}
+		for i := len(g.params) - 1; i < len(args); i++ {
+			es = append(es, f.coerceT(args[i], false, et))
+		}
+		as = append(as, "["+strings.Join(es, ", ")+"]")
+	}
+	for _, e := range g.extras {
+		f.addExtra(e)
+		as = append(as, e.name)
 	}
 	app := g.spec.Lean
 	if len(as) > 0 {
@@ -742,13 +860,24 @@ func (f *trFunc) call(c *ast.CallExpr) string {
 	t := f.tmp("__r")
 	f.pre = append(f.pre, fmt.Sprintf("let %s ← %s", t, app))
 	n := len(g.mutParams) + len(g.resOpt)
+	var wbs []types.Object
 	for k, mp := range g.mutParams {
 		for i, p := range g.params {
 			if p == mp && i < len(args) {
-				lines := f.assignTo(args[i], proj(t, k, n), false, c, "")
+				val := proj(t, k, n)
+				if f.lhsOpt(args[i]) && !g.opt[p] {
+					val = "(some " + val + ")"
+				}
+				lines := f.assignToNoWB(args[i], val, c)
 				f.pre = append(f.pre, lines...)
+				if o := f.objOf(args[i]); o != nil && f.alias[o] != nil {
+					wbs = append(wbs, o)
+				}
 			}
 		}
+	}
+	for _, o := range wbs {
+		f.pre = append(f.pre, f.aliasWriteBack(o, c)...)
 	}
 	var rs []string
 	for i := range g.resOpt {
